@@ -63,6 +63,7 @@ type Bounds struct {
 	summaries func(callee *Func) *Summary
 	Obs       []*BoundOb
 	predDepth int
+	cur       FactSet // the fact set conditions are currently interpreted against
 	entry     FactSet // facts that hold on entry (analysis in the context of one call)
 	Caller    *Bounds // the analysis this one was started from (call context)
 	CallSite  *ast.CallExpr
@@ -420,6 +421,22 @@ func (b *Bounds) isParam(o types.Object) bool {
 	return false
 }
 
+// cmpWith decomposes a comparison that has the variable o as one operand and
+// returns it with o on the left: (other operand, operator).
+func cmpWith(info *types.Info, cond ast.Expr, o types.Object) (ast.Expr, token.Token, bool) {
+	x, y, op, ok := CmpAtom(cond)
+	if !ok || o == nil {
+		return nil, 0, false
+	}
+	if ObjOf(info, x) == o {
+		return y, op, true
+	}
+	if ObjOf(info, y) == o {
+		return x, mirror(op), true
+	}
+	return nil, 0, false
+}
+
 // carryCounters recognises, in `for i := 0; i < B; i++ { … r++; if r >= K { q++; r = 0 } … }`
 // with q and r initialised to 0 and not written elsewhere, the invariant
 // q == ⌊i/K⌋ (and r == i mod K) at the head of every iteration.
@@ -447,7 +464,7 @@ func (b *Bounds) carryCounters() {
 			return true
 		}
 		// strict upper bound keeps i+1 representable
-		if x, _, op, ok := CmpAtom(fs.Cond); !ok || op != token.LSS || ObjOf(info, x) != iv {
+		if _, op, ok := cmpWith(info, fs.Cond, iv); !ok || op != token.LSS {
 			return true
 		}
 		// no continue / goto / labels inside the body
@@ -478,13 +495,24 @@ func (b *Bounds) carryCounters() {
 			if r == nil || !b.local(r) {
 				continue
 			}
-			for _, st2 := range fs.Body.List[idx+1:] {
+			for j2, st2 := range fs.Body.List[idx+1:] {
 				ifs, ok := st2.(*ast.IfStmt)
 				if !ok || ifs.Init != nil || ifs.Else != nil {
 					continue
 				}
-				x, y, op, ok := CmpAtom(ifs.Cond)
-				if !ok || ObjOf(info, x) != r || (op != token.GEQ && op != token.EQL) {
+				condExpr := ifs.Cond
+				var condVar types.Object
+				// the condition may sit in a boolean local set by the statement just before the if
+				if id, isId := ast.Unparen(condExpr).(*ast.Ident); isId && j2 > 0 {
+					if as, isAs := fs.Body.List[idx+j2].(*ast.AssignStmt); isAs && len(as.Lhs) == 1 && len(as.Rhs) == 1 && ObjOf(info, as.Lhs[0]) != nil && ObjOf(info, as.Lhs[0]) == ObjOf(info, id) {
+						condVar = ObjOf(info, id)
+						if w := writes[condVar]; w != nil && len(w.defs) == 1 && w.incs == 0 && w.oth == 0 {
+							condExpr = as.Rhs[0]
+						}
+					}
+				}
+				y, op, ok := cmpWith(info, condExpr, r)
+				if !ok || (op != token.GEQ && op != token.EQL) {
 					continue
 				}
 				K, isC := ConstInt(info, y)
@@ -583,7 +611,7 @@ func (b *Bounds) loopLowerBounds(fs *ast.ForStmt) []*BFact {
 		return nil
 	}
 	// strict upper bound on the counter keeps the increment representable
-	if x, _, op, ok := CmpAtom(fs.Cond); !ok || op != token.LSS || ObjOf(info, x) != stepped {
+	if _, op, ok := cmpWith(info, fs.Cond, stepped); !ok || op != token.LSS {
 		return nil
 	}
 	var out []*BFact
@@ -1064,6 +1092,17 @@ func cmpFact(l *BTerm, op token.Token, r *BTerm, src string) *BFact {
 func (b *Bounds) condFacts(cond ast.Expr, val bool) (facts []*BFact, nilErrs []types.Object) {
 	cond = ast.Unparen(cond)
 	switch x := cond.(type) {
+	case *ast.Ident:
+		// a boolean local that still holds a condition
+		if o := ObjOf(b.info, x); o != nil && b.cur != nil {
+			if d, ok := b.cur["d:"+VarID(o)]; ok && d.Kind == 'd' {
+				if val {
+					return d.Cond, d.NilT
+				}
+				return d.CondF, d.NilF
+			}
+		}
+		return nil, nil
 	case *ast.UnaryExpr:
 		if x.Op == token.NOT {
 			return b.condFacts(x.X, !val)
@@ -1132,8 +1171,17 @@ func (b *Bounds) killIf(fs FactSet, pred func(t *BTerm) bool) {
 func (b *Bounds) killVar(fs FactSet, o types.Object) {
 	b.killIf(fs, func(t *BTerm) bool { return t.K == TVar && t.Obj == o })
 	for k, f := range fs {
-		if f.Kind == 'n' && f.Obj == o {
+		if (f.Kind == 'n' || f.Kind == 'd') && f.Obj == o {
 			delete(fs, k)
+			continue
+		}
+		if f.Kind == 'd' {
+			for _, e := range append(append([]types.Object(nil), f.NilT...), f.NilF...) {
+				if e == o {
+					delete(fs, k)
+					break
+				}
+			}
 		}
 	}
 }
@@ -1342,6 +1390,33 @@ func (b *Bounds) assign(fs FactSet, lhs ast.Expr, rhs ast.Expr, at ast.Node) {
 			if n := b.lenOfExpr(rhs); n != nil && !mentions(n, lt.key) {
 				ll := mkTerm(&BTerm{K: TLen, Args: []*BTerm{lt}, Typ: types.Typ[types.Int]})
 				gen = append(gen, b.eqFact(ll, n, src))
+			}
+		}
+	}
+	// a boolean local that receives a condition
+	if id, ok := lhs.(*ast.Ident); ok && rhs != nil {
+		if o := ObjOf(info, id); o != nil && b.local(o) {
+			if bt, isB := o.Type().Underlying().(*types.Basic); isB && bt.Info()&types.IsBoolean != 0 {
+				saved := b.cur
+				b.cur = fs
+				tf, tn := b.condFacts(rhs, true)
+				ff, fn := b.condFacts(rhs, false)
+				b.cur = saved
+				selfRef := false
+				for _, list := range [][]*BFact{tf, ff} {
+					for _, f := range list {
+						f.terms(func(t *BTerm) {
+							if t.K == TVar && t.Obj == o {
+								selfRef = true
+							}
+						})
+					}
+				}
+				if !selfRef && (len(tf)+len(ff)+len(tn)+len(fn) > 0) {
+					d := &BFact{Kind: 'd', Obj: o, Cond: tf, CondF: ff, NilT: tn, NilF: fn, Src: src}
+					d.key = "d:" + VarID(o)
+					gen = append(gen, d)
+				}
 			}
 		}
 	}
@@ -1694,7 +1769,7 @@ func meet(a, c FactSet) FactSet {
 			}
 			continue
 		}
-		if f.Kind == 'n' {
+		if f.Kind == 'n' || f.Kind == 'd' {
 			if f.Src == g.Src {
 				out[k] = f
 			}
@@ -1745,6 +1820,8 @@ func (b *Bounds) edgeFacts(blk *cfg.Block, out FactSet) []FactSet {
 	}
 	br := b.G.BranchOf(blk)
 	t, f := out.clone(), out.clone()
+	b.cur = out
+	defer func() { b.cur = nil }()
 	switch br.Kind {
 	case BrCond:
 		tf, tn := b.condFacts(br.Cond, true)
